@@ -109,6 +109,7 @@ func forwardTrace(args []string) error {
 		b, _ := json.Marshal(body)
 		resp, err := httpDo("POST", "http://"+n.APIAddr+"/db/"+ep+"?"+q, b, "application/json", u.name, u.pw)
 		status, servedBy, location, resok, raftIdx := 0, "", "", false, uint64(0)
+		bodyValid, bodyErr := false, ""
 		if err == nil {
 			status = resp.Status
 			servedBy = resp.Header.Get("X-Rqlite-Served-By")
@@ -127,7 +128,17 @@ func forwardTrace(args []string) error {
 				Error     string `json:"error"`
 				RaftIndex uint64 `json:"raft_index"`
 			}
-			if status == 200 && json.Unmarshal(resp.Body, &parsed) == nil && parsed.Error == "" {
+			if status == 200 && json.Unmarshal(resp.Body, &parsed) == nil {
+				// a 200 answer must say something: results, or an error
+				bodyErr = parsed.Error
+				for _, r := range parsed.Results {
+					if r.Error != "" && bodyErr == "" {
+						bodyErr = r.Error
+					}
+				}
+				bodyValid = len(parsed.Results) > 0 || parsed.Error != ""
+			}
+			if status == 200 && bodyValid && parsed.Error == "" {
 				raftIdx = parsed.RaftIndex
 				rs := parsed.Results
 				switch kind {
@@ -151,7 +162,7 @@ func forwardTrace(args []string) error {
 		// a spontaneous election during the request (loaded machine) makes it a churn request
 		l2 := c.Leader(10 * time.Second)
 		moved := l2 == nil || l2.ID != l.ID || !l.Store.IsLeader()
-		emit("", "c.resp", "op", op, "status", status, "servedby", servedBy, "location", location, "resok", resok, "raftidx", raftIdx, "moved", moved)
+		emit("", "c.resp", "op", op, "status", status, "servedby", servedBy, "location", location, "resok", resok, "raftidx", raftIdx, "moved", moved, "bodyvalid", bodyValid, "bodyerr", bodyErr)
 		c.WaitConverged(10 * time.Second)
 	}
 
